@@ -14,6 +14,7 @@ import itertools
 import os
 import shutil
 import random
+import json
 
 from . import env, tlc
 from .core import Machinery
@@ -110,6 +111,140 @@ def gen_case(rng):
   return storage, agg, name
 
 
+def write_files(conf, st, agg, reuse_names=False):
+  with open(os.path.join(conf, 'storage-schemas.conf'), 'w') as fh:
+    fh.write('# generated\n')
+    for i, s in enumerate(st):
+      fh.write('[sec%d]\n' % i)
+      if s['haspat']:
+        fh.write('pattern = %s\n' % render_pat(s['pat']))
+      if s['hasret']:
+        fh.write('retentions = %s\n' % ', '.join(render_ret(r) for r in s['rets']))
+      fh.write('\n')
+  with open(os.path.join(conf, 'storage-aggregation.conf'), 'w') as fh:
+    for i, a in enumerate(agg):
+      fh.write('[%s]\n' % (('sec%d' % (len(agg) - 1 - i)) if reuse_names else ('agg%d' % i)))
+      if a['haspat']:
+        fh.write('pattern = %s\n' % render_pat(a['pat']))
+      if a['xff'] >= 0:
+        fh.write('xFilesFactor = %s\n' % (a['xff'] / 100.0))
+      if a['method']:
+        fh.write('aggregationMethod = %s\n' % METHODS[a['method']])
+      fh.write('\n')
+  for fn in ('storage-schemas.conf', 'storage-aggregation.conf'):
+    os.utime(os.path.join(conf, fn), (1000.0, 1000.0))
+
+
+def text_of(name, st, agg):
+  return dict(name=name, storage=[(render_pat(s['pat']) if s['haspat'] else '(no pattern)',
+                                   [render_ret(r) for r in s['rets']] if s['hasret'] else '(no retentions)') for s in st],
+              aggregation=[(render_pat(a['pat']) if a['haspat'] else '(no pattern)', a['xff'], METHODS[a['method']] or '(none)') for a in agg])
+
+
+def observe(db, name):
+  obs = dict(created=0, rets=[], xff=-1, method=0)
+  if db.created:
+    m, rets, xff, method = db.created[0]
+    obs = dict(created=1 if m == name and len(db.created) == 1 else 0, rets=[[int(a), int(b)] for a, b in rets],
+               xff=-1 if xff is None else int(round(xff * 100)), method=METHODS.index(method))
+  return obs
+
+
+def judge(ctx, recs, what):
+  cfg = tlc.cfg_text(spec='Spec', constants=dict(Mode='"trace"', MaxSections=0), constraints=['Report'])
+  verdicts = {}
+  CH = 2500
+  for k in range(0, len(recs), CH):
+    chunk = recs[k:k + CH]
+    r, done, bad = tlc.validate_batch('Schemas', cfg, ctx.scratch, chunk, workers=8, timeout=3000)
+    tlc.check_ok(r, what)
+    ctx.states += r.distinct
+    ctx.transitions += r.generated
+    got = {}
+    for v in tlc.extract_prints(r.out, 'DONE'):
+      got[v[1]] = set()
+    for v in tlc.extract_prints(r.out, 'F'):
+      got.setdefault(v[1], set()).add(v[2])
+    if len(got) != len(chunk):
+      raise Machinery('%s: %d of %d cases judged\n%s' % (what, len(got), len(chunk), r.out[-2500:]))
+    for i in range(1, len(chunk) + 1):
+      verdicts[k + i - 1] = got[i]
+  return verdicts
+
+
+def concurrent_reload(ctx, settings, writer, cache, state):
+  """The 60 s reload task (reactor thread) lands while the writer thread is looking a new metric up: the file is
+  created according to the file in force before the reload or the one after it - never a mixture of the two."""
+  from . import sched
+  import carbon.instrumentation
+  conf = settings['CONF_DIR']
+  rng = ctx.rng
+  wfile = writer.__file__
+  funcs = {wfile: {'writeCachedDataPoints', 'reloadStorageSchemas', 'reloadAggregationSchemas'}}
+  pairs = []
+  while len(pairs) < ctx.pick(12, 80):
+    storage, agg, name = gen_case(rng)
+    if len(storage) < 2:
+      continue
+    # the edit: sections moved, one inserted in front, or one removed
+    k = rng.randrange(3)
+    if k == 0:
+      st2 = storage[1:] + storage[:1] if rng.random() < 0.5 else list(reversed(storage))
+    elif k == 1:
+      st2 = [dict(storage[-1])] + storage
+    else:
+      st2 = storage[1:]
+    ag2 = list(reversed(agg)) if rng.random() < 0.6 else agg[1:]
+    pairs.append((storage, agg, st2, ag2, name))
+  seen = {}
+  nruns = 0
+  for pi, (stA, agA, stB, agB, name) in enumerate(pairs):
+    def run_once(chooser):
+      write_files(conf, stA, agA)
+      writer.reloadStorageSchemas()
+      writer.reloadAggregationSchemas()
+      db = DB()
+      state.database = db
+      cache._Cache = None
+      c = cache.MetricCache()
+      c.store(name, (1000.0, 1.0))
+      carbon.instrumentation.stats.clear()
+      write_files(conf, stB, agB)
+      sc = sched.Scheduler(files=[wfile], funcs=funcs, max_steps=5000)
+      sc.spawn('W', writer.writeCachedDataPoints)
+      sc.spawn('R', lambda: (writer.reloadStorageSchemas(), writer.reloadAggregationSchemas()))
+      log = sc.run(chooser)
+      cache._Cache = None
+      run_once.obs = observe(db, name)
+      run_once.exc = [repr(t.exc) for t in sc.threads if t.exc is not None]
+      return log
+    for forced, log in sched.explore_bounded(run_once, 1, limit=ctx.pick(120, 400), rng=rng):
+      nruns += 1
+      if run_once.exc:
+        ctx.violation('the writer or the reload task raised while a reload landed during a new-metric lookup: %s' % run_once.exc,
+                      dict(before=text_of(name, stA, agA), after=text_of(name, stB, agB), forced=sorted(forced.items())), signature='reload-raised')
+      key = (pi, json.dumps(run_once.obs, sort_keys=True))
+      seen.setdefault(key, sorted(forced.items()))
+  recs, idx = [], []
+  for (pi, ob), forced in seen.items():
+    stA, agA, stB, agB, name = pairs[pi]
+    obs = json.loads(ob)
+    recs.append(dict(storage=stA, aggregation=agA, name=enc(name), obs=obs))
+    recs.append(dict(storage=stB, aggregation=agB, name=enc(name), obs=obs))
+    idx.append((pi, obs, forced))
+  verdicts = judge(ctx, recs, 'C19 concurrent reload') if recs else {}
+  for j, (pi, obs, forced) in enumerate(idx):
+    stA, agA, stB, agB, name = pairs[pi]
+    both = verdicts[2 * j] & verdicts[2 * j + 1] & PROP
+    for f in sorted(both):
+      ctx.violation('a reload of the schema files landed while the writer thread was looking a new metric up, and ' + WHAT[f] +
+                    ' - neither of the file in force before the reload nor of the one after it',
+                    dict(before=text_of(name, stA, agA), after=text_of(name, stB, agB), observed=obs, forced=forced), signature='reload-mix:' + f)
+  ctx.evaluations += nruns
+  ctx.cov['concurrent_reload_schedules'] = nruns
+  ctx.cov['concurrent_reload_distinct_outcomes'] = len(idx)
+
+
 def run(ctx):
   ctx.rule = ('0-4 storage sections (pattern and/or retentions missing with probability 0.3) x 0-3 aggregation sections, every '
               'permutation of the storage sections for files of <= 3 sections, retention strings over precision {1,2,10,60,90} x '
@@ -123,6 +258,8 @@ def run(ctx):
   if res.violated:
     raise Machinery('Schemas.tla violates %s' % res.violated)
   settings = env.bootstrap(ctx.scratch)
+  from twisted.python import log as tlog
+  tlog.startLoggingWithObserver(lambda e: None, setStdout=False)      # 'Schema ... missing pattern, skipping' is expected here, not news
   settings['MAX_CREATES_PER_MINUTE'] = float('inf')
   settings['MAX_UPDATES_PER_SECOND'] = float('inf')
   settings['CACHE_WRITE_STRATEGY'] = 'sorted'
@@ -209,6 +346,7 @@ def run(ctx):
                                                       [render_ret(r) for r in s['rets']] if s['hasret'] else '(no retentions)') for s in st],
                                  aggregation=[(render_pat(a['pat']) if a['haspat'] else '(no pattern)', a['xff'], METHODS[a['method']] or '(none)') for a in agg])))
   ctx.evaluations = len(recs)
+  concurrent_reload(ctx, settings, writer, cache, state)
   cfg = tlc.cfg_text(spec='Spec', constants=dict(Mode='"trace"', MaxSections=0), constraints=['Report'])
   verdicts = {}
   CH = 2500
